@@ -520,6 +520,22 @@ def region_from(f, start, stop_blocks=frozenset()):
     return reach_without_edges(f, start, set(), frozenset(stop_blocks))
 
 
+def closure_args(prog, c):
+    """workspace closures handed to a call (`opt.map(|g| ..)`): the bodies that run as part of it"""
+    out = []
+    f = c.fn
+    for a in c.args:
+        if "p" not in a or len(a["p"]) != 1:
+            continue
+        for x in copy_sources(f, a["p"][0]):
+            if not isinstance(x, int):
+                continue
+            for bb, kind, d in f.defs().get(x, []):
+                if kind == "stmt" and d.get("k") == "closure" and d.get("closure") in prog.fns:
+                    out.append(prog.fns[d["closure"]])
+    return out
+
+
 def control_dependent_switches(f, target_bb, within=None):
     """switch blocks w (reaching target) having at least one successor from which target is unreachable"""
     out = []
